@@ -28,6 +28,7 @@ func checkC15(c *Ctx, e *Env) {
 	importObligations(c, e, checkC17, "C17", "C15.REPORT", "queries#report-the-record's-own-iri", "what the x/data queries report for a content hash — its IRI, its anchor, its attestors, its resolvers — is read from the record of that hash in each listed element: an IRI taken from another row would present one content hash's data under another's", func(o *Oblig) bool {
 		return o.Rule == "C17.SHAPE" && strings.HasPrefix(o.Construct, "data.")
 	})
+	importObligations(c, e, checkC16, "C16", "C15.STATE", "data ids#from-the-store-only", "which content hash a data id stands for is read from the store on every use: an id remembered in the server object outlives discarded transactions and, once the compact ids of two IRIs collide, hands one content hash the other's records", func(o *Oblig) bool { return o.Rule == "C16.STATE" || o.Rule == "C16.E1" })
 	fns := m.subjectFns(false)
 	var encoders []*ssa.Function
 	var parser *ssa.Function
